@@ -1,16 +1,21 @@
 // C14 — SocketServer serves each accepted connection exactly once and stops cleanly: the real accept loop, handler
-// threads, stop(true) and destruction run over vnet under the controlled scheduler; all interleavings of start, N client
-// connects (with early closes), stop(true) and destruction within a preemption bound.
+// threads, stop(true) and destruction run over vnet under the controlled scheduler; all interleavings of start (in its own
+// thread or blocking in a caller's thread), N client connects (bursts, a trickle after an idle select timeout, early
+// closes, one accept() that fails), stop(true), a late client and destruction within a preemption bound.
 #include <asl/SocketServer.h>
 #include <asl/Socket.h>
 #include <asl/Thread.h>
+#include <time.h>
 #include "vf.h"
 #include "vsched.h"
 #include "vnet.h"
 using namespace asl;
 using vf::fmt;
 
-static int C_EXEC, C_POINTS, C_JOBS, W_PREEMPT, W_SERVED, W_EARLYCLOSE, W_STOP_WITH_INFLIGHT, W_LATE_REFUSED, W_CANCEL;
+static int C_EXEC, C_POINTS, C_JOBS, C_STATES, C_SUBJOBS, C_PRUNED;
+static int W_PREEMPT, W_SERVED, W_SERVED_MODE[4], W_EARLYCLOSE, W_EARLY_MODE[2], W_LATE_NOT_SERVED, W_LATE_OTHER_ENDPOINT;
+static int W_BLOCKING, W_BLOCKING_LOOP_THREAD_ALIVE, W_NOSTART, W_ACCEPTS_EQ, W_KEPT_CLOSED, W_TWO_INFLIGHT, W_SELECT_MULTI, W_AFTER_IDLE;
+static int W_STOP_INFLIGHT, W_STOP_POLLS, W_ACC_ALIVE, W_HANDLER_ALIVE, W_ACCEPT_FAIL, W_FAILED_SERVE, W_EPIPE;
 static std::string g_case;
 static void onFatal(const char* what, const std::string& schedule) {
 	std::string w = what;
@@ -20,27 +25,37 @@ static void onFatal(const char* what, const std::string& schedule) {
 }
 
 // everything the scenario observes; plain variables, accessed only while holding the scheduler baton
-struct Obs { int starts, ends, inServe, lateStarts, badFd, stopReturned, serverFreed, afterFree; int perConn[8]; };
+struct Obs { int starts, ends, inServe, maxInServe, lateStarts, badFd, failedServes, stopReturned, serverFreed, afterFree, afterIdle, nkept, loopReturned; int perConn[8]; };
 static Obs g;
+static bool g_acceptMayFail; static int g_modeOf[8];
+// copies of the sockets handed to serve(), as a server that keeps its connections (a WebSocket- or HTTP-style one) holds them: the
+// descriptor is then closed only if the server closes it, not as a side effect of the last reference going away
+static Socket* g_kept[8];
 struct EchoSrv : public SocketServer {
 	void serve(Socket client) {
 		if (g.serverFreed) g.afterFree++;
-		g.starts++; g.inServe++;
+		g.starts++; g.inServe++; if (g.inServe > g.maxInServe) g.maxInServe = g.inServe;
 		if (g.stopReturned) g.lateStarts++;
-		if (client.handle() < 900) g.badFd++;
+		bool failed = g_acceptMayFail && client.handle() < 0; // accept() itself failed (injected): not a connection; the statement says nothing about it
+		if (failed) g.failedServes++;
+		else if (client.handle() < 900) g.badFd++;
+		if (!failed && g.nkept < 8) g_kept[g.nkept++] = new Socket(client);
 		// read a one-byte token (or see the peer close), echo it twice
 		if (client.waitInput(2.0)) {
 			char t = 0; int n = client.read(&t, 1);
-			if (n == 1) { if (t >= '0' && t < '8') g.perConn[t - '0']++; vsched::point(); client.write(&t, 1); client.write(&t, 1); }
+			if (n == 1) { if (t >= '0' && t < '8') { g.perConn[t - '0']++; if (g_modeOf[t - '0'] == 3) g.afterIdle++; } vsched::point(); client.write(&t, 1); client.write(&t, 1); }
 		}
-		if (client.handle() < 900) g.badFd++;
+		if (!failed && client.handle() < 900) g.badFd++;
 		g.inServe--; g.ends++;
 	}
 };
+// client modes: 0 connect, send the token, wait for the echo; 1 connect and close; 2 connect, send, close; 3 sleep 2.5 s (the accept
+// loop's 2 s select expires idle meanwhile), then as 0
 struct Client : public Thread {
 	int id, mode, port; const char* path; int connected, echoed;
 	Client() : id(0), mode(0), port(0), path(0), connected(0), echoed(0) {}
 	void run() {
+		if (mode == 3) asl::sleep(2.5);
 		Socket s;
 		bool ok = path ? s.connect(String(path)) : s.connect("127.0.0.1", port);
 		if (!ok) { s.close(); return; }
@@ -53,100 +68,291 @@ struct Client : public Thread {
 		s.close();
 	}
 };
+struct Starter : public Thread { // the documented default: start() blocks the calling thread in the accept loop
+	EchoSrv* srv;
+	void run() { srv->start(false); g.loopReturned = 1; }
+};
 
-struct Scn { int nclients; int modes[2]; bool sequential; int unixPath; bool lateClient; int bound; bool joinFirst; }; // unixPath: 0 TCP port, 1 Unix path, 2 both bound (client 0 uses the port, client 1 the path)
-static std::string scnName(const Scn& s) { return fmt("srv.n%d.m%d%d.seq%d.ux%d.late%d.b%d%s", s.nclients, s.modes[0], s.modes[1], (int)s.sequential, (int)s.unixPath, (int)s.lateClient, s.bound, s.joinFirst ? ".join" : ""); }
+enum { NONBLOCKING = 0, BLOCKING = 1, NOSTART = 2 };
+// unixPath: 0 TCP port, 1 Unix path, 2 both bound (client 0 and a late client of a two-client scenario use the port, client 1 and the late client of a one-client scenario the path)
+// kind: NONBLOCKING start(true); BLOCKING start() in a caller's thread; NOSTART bound, never started, stop(true), destroyed
+// acceptFail: k > 0 = the k-th accept() fails once (ECONNABORTED)
+struct Scn { int nclients; int modes[2]; bool sequential; int unixPath; bool lateClient; int bound; bool joinFirst; int kind; int acceptFail; };
+static const char* PATH = "/tmp/vnet-c14.sock";
+static std::string scnName(const Scn& s) {
+	return fmt("srv.n%d.m%d%d.seq%d.ux%d.late%d.b%d%s%s%s", s.nclients, s.modes[0], s.modes[1], (int)s.sequential, (int)s.unixPath, (int)s.lateClient, s.bound, s.joinFirst ? ".join" : "",
+		s.kind == BLOCKING ? ".blk" : s.kind == NOSTART ? ".nostart" : "", s.acceptFail ? fmt(".af%d", s.acceptFail).c_str() : "");
+}
+static bool parseScn(const std::string& name, Scn& s) {
+	memset(&s, 0, sizeof s);
+	int n, m0, m1, seq, ux, late, b, used = 0;
+	if (sscanf(name.c_str(), "srv.n%d.m%1d%1d.seq%d.ux%d.late%d.b%d%n", &n, &m0, &m1, &seq, &ux, &late, &b, &used) != 7) return false;
+	s.nclients = n; s.modes[0] = m0; s.modes[1] = m1; s.sequential = seq != 0; s.unixPath = ux; s.lateClient = late != 0; s.bound = b;
+	std::string rest = name.substr(used);
+	while (!rest.empty()) {
+		size_t e = rest.find('.', 1); std::string tok = rest.substr(0, e); rest = e == std::string::npos ? "" : rest.substr(e);
+		if (tok == ".join") s.joinFirst = true; else if (tok == ".blk") s.kind = BLOCKING; else if (tok == ".nostart") s.kind = NOSTART;
+		else if (tok.compare(0, 3, ".af") == 0) s.acceptFail = atoi(tok.c_str() + 3); else return false;
+	}
+	return n >= 0 && n <= 2 && m0 >= 0 && m0 <= 3 && m1 >= 0 && m1 <= 3 && ux >= 0 && ux <= 2;
+}
 
-static void runScn(const Scn& sc, const std::string* replay) {
-	std::string kase = scnName(sc); g_case = kase; vf::cur(kase);
-	std::string verdict;
-	auto body = [&]() {
+struct Run { // one scenario under exploration: body() is one execution, after() judges it
+	Scn sc; std::string kase, verdict;
+	uint64_t stepsAtDelete; int harnessAliveAtDelete, acceptAliveAtDelete; bool deleted;
+	const char* clientPath(int i) const { return (sc.unixPath == 1 || (sc.unixPath == 2 && i == 1)) ? PATH : 0; }
+	void body() {
 		vf::asan_clear(); memset((void*)&g, 0, sizeof g);
-		vnet::reset(4); vnet::enable(true); vnet::set_limits(0, 0);
+		vnet::reset(4); vnet::enable(true); vnet::set_limits(0, 0); vnet::fail_accept(sc.acceptFail); g_acceptMayFail = sc.acceptFail != 0; memset(g_modeOf, 0, sizeof g_modeOf); for (int i = 0; i < sc.nclients; i++) g_modeOf[i] = sc.modes[i];
 		vsched::set_early_timeouts(!sc.joinFirst); // joinFirst: a client's 3 s wait for its echo may only expire when nothing else can run
-		verdict.clear();
+		verdict.clear(); deleted = false; stepsAtDelete = 0; harnessAliveAtDelete = acceptAliveAtDelete = 0;
 		{
 			EchoSrv* srv = new EchoSrv();
-			bool bound = sc.unixPath == 1 ? srv->bindPath("/tmp/vnet-c14.sock") : srv->bind("127.0.0.1", 9100);
-			if (sc.unixPath == 2) bound = srv->bindPath("/tmp/vnet-c14.sock") && bound;
+			bool bound = sc.unixPath == 1 ? srv->bindPath(PATH) : srv->bind("127.0.0.1", 9100);
+			if (sc.unixPath == 2) bound = srv->bindPath(PATH) && bound;
 			if (!bound) verdict += "bind failed; ";
 			srv->setSequential(sc.sequential);
-			srv->start(true);
+			if (sc.kind == NOSTART) {
+				// a server that was bound but never started: stop(true) has nothing to wait for, and it can be destroyed (no accept thread exists)
+				if (srv->running()) verdict += "running() is true for a server that was never started; ";
+				srv->stop(true);
+				if (srv->running()) verdict += "running() is true after stop(true) on a server that was never started; ";
+				delete srv; g.serverFreed = 1;
+				vf::add(W_NOSTART);
+				finish(); return;
+			}
+			Starter st; st.srv = srv;
+			if (sc.kind == BLOCKING) {
+				st.start();
+				// let the starting thread get into start(): a caller can only stop a server it knows to be running
+				for (int k = 0; k < 4 && !srv->running(); k++) vsched::yield_spin(0);
+				if (!srv->running()) verdict += "start() is executing the accept loop in another thread but running() is false; ";
+			}
+			else srv->start(true);
 			Client c[2];
-			for (int i = 0; i < sc.nclients; i++) { c[i].id = i; c[i].mode = sc.modes[i]; c[i].port = 9100; c[i].path = (sc.unixPath == 1 || (sc.unixPath == 2 && i == 1)) ? "/tmp/vnet-c14.sock" : 0; c[i].start(); }
+			for (int i = 0; i < sc.nclients; i++) { c[i].id = i; c[i].mode = sc.modes[i]; c[i].port = 9100; c[i].path = clientPath(i); c[i].start(); }
 			if (sc.joinFirst) {
 				// the server is running and nobody has asked it to stop: every client that connects, sends its token and waits must be served
 				for (int i = 0; i < sc.nclients; i++) c[i].join();
-				for (int i = 0; i < sc.nclients; i++) if (sc.modes[i] == 0 && c[i].connected && !c[i].echoed) verdict += fmt("client %d connected to the running server (%s), sent its token and waited 3 s without being served; ", i, c[i].path ? "Unix path" : "TCP port");
+				int unserved = 0;
+				for (int i = 0; i < sc.nclients; i++) if ((sc.modes[i] == 0 || sc.modes[i] == 3) && c[i].connected && !c[i].echoed) {
+					if (++unserved <= (int)vnet::stat(vnet::ST_ACCEPT_FAILURES)) continue; // its connection was the one aborted in accept()
+					verdict += fmt("client %d connected to the running server (%s)%s, sent its token and waited 3 s without being served; ", i, c[i].path ? "Unix path" : "TCP port", sc.modes[i] == 3 ? " after the accept loop had been idle for 2.5 s" : "");
+				}
 			}
+			int inflightAtStop = g.inServe; double t0 = vsched::vnow();
 			srv->stop(true);
 			// stop(true) has returned: the loop must have ended and no serve() may be in flight
 			g.stopReturned = 1;
+			if (inflightAtStop) vf::add(W_STOP_INFLIGHT);
+			if (vsched::vnow() - t0 > 0.15) vf::add(W_STOP_POLLS);
 			if (g.inServe != 0) verdict += fmt("stop(true) returned while %d serve() call(s) were still running; ", g.inServe);
 			if (srv->running()) verdict += "running() is true after stop(true); ";
 			if (g.starts != g.ends) verdict += "serve() started but not finished when stop(true) returned; ";
-			if (g.starts > 0 && g.ends > 0 && g.inServe == 0 && sc.nclients > 0) {}
-			Client late; int lateConnected = 0;
-			if (sc.lateClient) { late.id = 7; late.mode = 0; late.port = 9100; late.path = sc.unixPath == 1 ? "/tmp/vnet-c14.sock" : 0; late.start(); late.join(); lateConnected = late.connected; if (late.echoed) verdict += "a client that connected after stop(true) returned was served; "; else vf::add(W_LATE_REFUSED); }
+			if (sc.kind == BLOCKING) {
+				if (!g.loopReturned) verdict += "stop(true) returned while the blocking start() had not returned: the accept loop was still running; ";
+				else { vf::add(W_BLOCKING); if (!st.finished()) vf::add(W_BLOCKING_LOOP_THREAD_ALIVE); }
+			}
+			// every connection the server accepted has been through serve() by now (none is served later, see lateStarts)
+			long acc = vnet::stat(vnet::ST_ACCEPTS);
+			if (acc != g.starts - g.failedServes) verdict += fmt("%ld connection(s) accepted but serve() entered %d time(s) with a connection when stop(true) returned; ", acc, g.starts - g.failedServes);
+			else if (acc) vf::add(W_ACCEPTS_EQ);
+			Client late;
+			if (sc.lateClient) {
+				bool other = sc.unixPath == 2 && sc.nclients == 1; // the endpoint that nobody has used yet
+				late.id = 7; late.mode = 0; late.port = 9100; late.path = (sc.unixPath == 1 || other) ? PATH : 0; late.start(); late.join();
+				if (late.echoed) verdict += "a client that connected after stop(true) returned was served; ";
+				else if (late.connected) { vf::add(W_LATE_NOT_SERVED); if (other) vf::add(W_LATE_OTHER_ENDPOINT); }
+			}
+			// which threads are still on their way out when the server is destroyed (the window the memory oracle is for); a thread whose
+			// finished flag is set has nothing left but its exit, without a schedule point in between
+			stepsAtDelete = vsched::steps(); deleted = true;
+			for (int i = 0; i < sc.nclients; i++) if (!c[i].finished()) harnessAliveAtDelete++;
+			if (sc.kind == BLOCKING && !st.finished()) harnessAliveAtDelete++;
+			if (srv->_thread && !((Thread*)(void*)srv->_thread)->finished()) acceptAliveAtDelete = 1;
 			delete srv; g.serverFreed = 1;
+			if (sc.kind == BLOCKING) st.join();
 			for (int i = 0; i < sc.nclients; i++) c[i].join();
-			(void)lateConnected;
 			// every accepted connection was served exactly once
 			int served = 0;
 			for (int i = 0; i < 8; i++) { if (g.perConn[i] > 1) verdict += fmt("connection of client %d was served %d times; ", i, g.perConn[i]); served += g.perConn[i]; }
 			for (int i = 0; i < sc.nclients; i++) if (c[i].echoed && g.perConn[i] != 1) verdict += fmt("client %d got an echo but its connection was served %d times; ", i, g.perConn[i]);
 			if (served) vf::add(W_SERVED, served);
-			for (int i = 0; i < sc.nclients; i++) if (sc.modes[i] != 0 && c[i].connected) vf::add(W_EARLYCLOSE);
+			for (int i = 0; i < sc.nclients; i++) if (g.perConn[i]) vf::add(W_SERVED_MODE[(sc.sequential ? 2 : 0) + (c[i].path ? 1 : 0)]);
+			for (int i = 0; i < sc.nclients; i++) if ((sc.modes[i] == 1 || sc.modes[i] == 2) && c[i].connected) { vf::add(W_EARLYCLOSE); vf::add(W_EARLY_MODE[sc.sequential ? 1 : 0]); }
 		}
+		finish();
+	}
+	void finish() {
 		if (g.lateStarts) verdict += fmt("%d serve() call(s) began after stop(true) had returned; ", g.lateStarts);
 		if (g.afterFree) verdict += "serve() ran after the server was destroyed; ";
 		if (g.badFd) verdict += "serve() was handed an invalid socket; ";
 		if (g.starts != g.ends) verdict += fmt("serve() begun %d times, finished %d times; ", g.starts, g.ends);
 		if (vnet::misuse()) verdict += fmt("%d socket operation(s) on a closed descriptor; ", vnet::misuse());
+		if (vnet::stat(vnet::ST_SIGPIPE_SENDS)) verdict += fmt("%ld send() call(s) to a closed peer without MSG_NOSIGNAL: SIGPIPE would end the process; ", vnet::stat(vnet::ST_SIGPIPE_SENDS));
+		if (g.maxInServe >= 2) vf::add(W_TWO_INFLIGHT);
+		if (g.afterIdle) vf::add(W_AFTER_IDLE, g.afterIdle);
+		if (g.failedServes) vf::add(W_FAILED_SERVE, g.failedServes);
+		if (vnet::stat(vnet::ST_ACCEPT_FAILURES)) vf::add(W_ACCEPT_FAIL);
+		if (vnet::stat(vnet::ST_SELECT_MULTI)) vf::add(W_SELECT_MULTI);
+		if (vnet::stat(vnet::ST_SENDS_TO_CLOSED_PEER)) vf::add(W_EPIPE);
 		// threads the server started must be gone before the scenario ends (vsched waits for them); descriptors must be closed
 		vsched::point();
 		vnet::enable(false);
 		if (vf::asan_tripped()) verdict += "ASan " + vf::asan_what() + "; ";
-	};
-	int leaked = 0;
-	auto after = [&](const vsched::Result& x) {
+	}
+	void after(const vsched::Result& x) {
 		vf::add(C_EXEC); vf::add(C_POINTS, x.points.size()); if (x.preemptions) vf::add(W_PREEMPT);
 		if (vf::asan_tripped()) { verdict += "ASan " + vf::asan_what() + " (after the scenario body); "; vf::asan_clear(); }
-		leaked = vnet::open_fds();
+		// every thread has ended: a connection that went through serve() must have been closed by the server, although a copy of the socket is still held
+		int notClosed = 0;
+		for (int k = 0; k < g.nkept; k++) { if (g_kept[k]->handle() >= 0) notClosed++; else vf::add(W_KEPT_CLOSED); }
+		if (notClosed) verdict += fmt("%d connection(s) still open after serve() returned and every server thread ended (a copy of the socket is still held: only the server's own close() closes it); ", notClosed);
+		if (vnet::stat(vnet::ST_ACCEPTED_OPEN) > notClosed) verdict += fmt("%ld accepted connection(s) that never reached serve() still open after every thread ended; ", vnet::stat(vnet::ST_ACCEPTED_OPEN) - notClosed);
+		for (int k = 0; k < g.nkept; k++) { delete g_kept[k]; g_kept[k] = 0; }
+		g.nkept = 0;
+		int leaked = vnet::open_fds();
 		if (leaked) verdict += fmt("%d descriptor(s) still open after every thread ended; ", leaked);
+		if (deleted && stepsAtDelete <= x.points.size()) {
+			int exited = 0; for (uint64_t i = 0; i < stepsAtDelete; i++) if (x.points[i].kind == 8) exited++;
+			int serverAlive = (x.threads - 1) - exited - harnessAliveAtDelete;
+			if (acceptAliveAtDelete) vf::add(W_ACC_ALIVE);
+			if (serverAlive - acceptAliveAtDelete > 0) vf::add(W_HANDLER_ALIVE);
+		}
 		if (!verdict.empty()) vf::violation("server_contract", kase + ": " + verdict + "schedule " + x.trace(), kase + "|" + x.trace());
-	};
-	if (replay) { vsched::Result x = vsched::run_once(vsched::parse_schedule(*replay), body, 50000); after(x); return; }
-	vsched::ExploreStats st = vsched::explore(body, after, sc.bound, 0, 50000);
-	vf::add(C_JOBS); { static int cst = vf::counter("states"); vf::add(cst, st.distinct_states); }
-	if (getenv("VF_DEBUG")) fprintf(stderr, "%s: %llu executions, max %llu points\n", kase.c_str(), (unsigned long long)st.executions, (unsigned long long)st.max_points);
+	}
+};
+
+// Depth-first enumeration of all schedules below `root` with at most `bound` deviations, as vsched::explore does it (an alternative at a
+// point of an execution is a new prefix; alternatives are taken only at points after the prefix, so the prefixes partition the space).
+// splitOnly: run the root execution and hand its alternatives back instead of following them (they become separate work items).
+typedef std::vector<uint8_t> Prefix;
+static void alternatives(const vsched::Result& x, size_t from, int bound, std::vector<Prefix>& out) {
+	std::vector<int> preBefore(x.points.size()); int pre = 0;
+	for (size_t i = 0; i < x.points.size(); i++) { preBefore[i] = pre; const vsched::PointInfo& q = x.points[i]; if ((q.running_enabled && q.chosen != 0) || (!q.running_enabled && q.ntimer && q.chosen >= q.nenabled - q.ntimer)) pre++; }
+	for (size_t i = x.points.size(); i-- > from;) {
+		const vsched::PointInfo& p = x.points[i];
+		for (int alt = p.nenabled - 1; alt >= 1; alt--) {
+			int cost = preBefore[i] + ((p.running_enabled || alt >= p.nenabled - p.ntimer) ? 1 : 0);
+			if (bound >= 0 && cost > bound) { vf::add(C_PRUNED); continue; }
+			Prefix np(x.choices.begin(), x.choices.begin() + i); np.push_back((uint8_t)alt);
+			out.push_back(np);
+		}
+	}
+}
+static double cpu_s() { struct timespec ts; clock_gettime(CLOCK_PROCESS_CPUTIME_ID, &ts); return ts.tv_sec + ts.tv_nsec * 1e-9; }
+static void exploreBelow(const Scn& sc, const Prefix& root, bool splitOnly, std::vector<Prefix>* handBack) {
+	Run r; r.sc = sc; r.kase = scnName(sc); g_case = r.kase; vf::cur(r.kase);
+	double c0 = cpu_s(); uint64_t nexec = 0;
+	vsched::states_reset();
+	std::vector<Prefix> stack; stack.push_back(root);
+	std::function<void()> body = [&]() { r.body(); };
+	while (!stack.empty()) {
+		if ((nexec & 255) == 255 && vf::deadline_passed()) { vf::cap_hit("deadline in " + r.kase); break; }
+		Prefix p = stack.back(); stack.pop_back();
+		vsched::Result x = vsched::run_once(p, body, 50000);
+		nexec++;
+		r.after(x);
+		if (splitOnly) { alternatives(x, p.size(), sc.bound, *handBack); break; }
+		alternatives(x, p.size(), sc.bound, stack);
+	}
+	vf::add(C_STATES, vsched::states_count());
+	if (getenv("C14_TIMES")) { FILE* f = fopen(getenv("C14_TIMES"), "a"); if (f) { fprintf(f, "%s %d %llu %.2f\n", r.kase.c_str(), (int)root.size(), (unsigned long long)nexec, cpu_s() - c0); fclose(f); } }
+}
+
+static void addScn(std::vector<Scn>& v, int n, int m0, int m1, int seq, int ux, bool late, int bound, bool join = false, int kind = NONBLOCKING, int af = 0) {
+	if (bound <= 0) return; // not in this tier
+	Scn s = { n, { m0, m1 }, seq != 0, ux, late, bound, join, kind, af };
+	for (size_t i = 0; i < v.size(); i++) if (scnName(v[i]) == scnName(s)) return;
+	v.push_back(s);
 }
 
 int main(int argc, char** argv) {
 	vf::init(argc, argv, "C14", "s_c14_server");
-	C_EXEC = vf::counter("traces"); C_POINTS = vf::counter("transitions"); C_JOBS = vf::counter("scenarios"); vf::counter("states");
-	W_PREEMPT = vf::counter("w.executions_with_preemption"); W_SERVED = vf::counter("w.connections_served"); W_EARLYCLOSE = vf::counter("w.clients_closing_early"); W_LATE_REFUSED = vf::counter("w.late_clients_not_served");
+	C_EXEC = vf::counter("traces"); C_POINTS = vf::counter("transitions"); C_JOBS = vf::counter("scenarios"); C_STATES = vf::counter("states"); C_SUBJOBS = vf::counter("work_items"); C_PRUNED = vf::counter("alternatives_beyond_bound");
+	W_PREEMPT = vf::counter("w.executions_with_preemption"); W_SERVED = vf::counter("w.connections_served");
+	W_SERVED_MODE[0] = vf::counter("w.served_concurrent_tcp"); W_SERVED_MODE[1] = vf::counter("w.served_concurrent_unix"); W_SERVED_MODE[2] = vf::counter("w.served_sequential_tcp"); W_SERVED_MODE[3] = vf::counter("w.served_sequential_unix");
+	W_EARLYCLOSE = vf::counter("w.clients_closing_early"); W_EARLY_MODE[0] = vf::counter("w.early_close_concurrent"); W_EARLY_MODE[1] = vf::counter("w.early_close_sequential");
+	W_LATE_NOT_SERVED = vf::counter("w.late_clients_connected_not_served"); W_LATE_OTHER_ENDPOINT = vf::counter("w.late_client_on_second_endpoint");
+	W_BLOCKING = vf::counter("w.blocking_start_stopped"); W_BLOCKING_LOOP_THREAD_ALIVE = vf::counter("w.blocking_start_thread_still_returning_at_stop_return");
+	W_NOSTART = vf::counter("w.never_started_server_destroyed");
+	W_ACCEPTS_EQ = vf::counter("w.accepts_equal_serve_entries"); W_KEPT_CLOSED = vf::counter("w.kept_socket_closed_by_server"); W_TWO_INFLIGHT = vf::counter("w.two_handlers_in_flight");
+	W_SELECT_MULTI = vf::counter("w.select_round_with_two_active_listeners"); W_AFTER_IDLE = vf::counter("w.served_after_idle_select_timeout");
+	W_STOP_INFLIGHT = vf::counter("w.stop_called_with_serve_in_flight"); W_STOP_POLLS = vf::counter("w.stop_polled_more_than_once");
+	W_ACC_ALIVE = vf::counter("w.accept_thread_alive_at_delete"); W_HANDLER_ALIVE = vf::counter("w.handler_thread_alive_at_delete");
+	W_ACCEPT_FAIL = vf::counter("w.accept_failures_injected"); W_FAILED_SERVE = vf::counter("w.serve_calls_on_failed_accept"); W_EPIPE = vf::counter("w.sends_to_closed_peer");
 	vsched::set_fatal_handler(onFatal);
 	vsched::set_state_probe(vnet::state_hash);
 	bool T = vf::opt.thorough();
 	std::vector<Scn> sc;
+	// B(q, t): deviation bound in the quick / thorough tier (0 = not in that tier). The bounds are the deepest that fit the time budget, measured per scenario (C14_TIMES=<file>).
+	#define B(q, t) (T ? (t) : (q))
 	for (int seq = 0; seq < 2; seq++) for (int ux = 0; ux < 2; ux++) {
-		{ Scn s = { 0, { 0, 0 }, seq != 0, ux != 0, true, T ? 4 : 3 }; sc.push_back(s); }
-		// thorough bounds are the deepest that finish (measured: n1.m00 at 3 and n2.m00/m01/m02 at 2 need > 25 min of CPU each)
-		for (int m = 0; m < 3; m++) { Scn s = { 1, { m, 0 }, seq != 0, ux != 0, m == 0, (T && m != 0) ? 3 : 2 }; sc.push_back(s); }
-		for (int m0 = 0; m0 < 3; m0++) for (int m1 = m0; m1 < 3; m1++) { if (!T && ux && (m0 || m1)) continue; Scn s = { 2, { m0, m1 }, seq != 0, ux != 0, false, (T && !ux && m0 >= 1) ? 2 : 1 }; sc.push_back(s); }
+		addScn(sc, 0, 0, 0, seq, ux, true, B(3, 4));
+		for (int m = 0; m < 3; m++) addScn(sc, 1, m, 0, seq, ux, m == 0, B(2, m ? 3 : 2));
+		for (int m0 = 0; m0 < 3; m0++) for (int m1 = m0; m1 < 3; m1++) addScn(sc, 2, m0, m1, seq, ux, false, B((ux && (m0 || m1)) ? 0 : 1, (!ux && (m0 >= 1 || seq)) ? 2 : 1));
 	}
-	// both endpoints bound at once, clients finish before stop(true): one client per endpoint must be served
-	for (int seq = 0; seq < 2; seq++) for (int ux = 0; ux < 3; ux++) { Scn s = { 2, { 0, 0 }, seq != 0, ux, false, 1, true }; sc.push_back(s); }
-	if (getenv("C14_ONLY")) { std::vector<Scn> q; for (size_t i = 0; i < sc.size(); i++) if (scnName(sc[i]).find(getenv("C14_ONLY")) == 0) q.push_back(sc[i]); sc.swap(q); }
+	// clients finish before stop(true): each must be served; with both endpoints bound at once, one client per endpoint
+	for (int seq = 0; seq < 2; seq++) for (int ux = 0; ux < 3; ux++) {
+		if (ux < 2) addScn(sc, 1, 0, 0, seq, ux, false, B(1, 2), true);
+		addScn(sc, 2, 0, 0, seq, ux, false, B((!seq && ux < 2) ? 0 : 1, 1), true);
+	}
+	// blocking start(): the accept loop runs in the thread that called start(); stop(true) comes from another thread, the server is destroyed while that thread is still returning
+	for (int seq = 0; seq < 2; seq++) for (int ux = 0; ux < 2; ux++) {
+		addScn(sc, 0, 0, 0, seq, ux, true, B(2, 3), false, BLOCKING);
+		for (int m = 0; m < 3; m++) addScn(sc, 1, m, 0, seq, ux, m == 0, B(1, 2), false, BLOCKING);
+		addScn(sc, 2, 0, 0, seq, ux, false, 1, false, BLOCKING);
+	}
+	for (int seq = 0; seq < 2; seq++) addScn(sc, 2, 0, 0, seq, 2, false, 1, true, BLOCKING);
+	// bound, never started, stop(true), destroyed
+	for (int ux = 0; ux < 3; ux++) addScn(sc, 0, 0, 0, 0, ux, false, 2, false, NOSTART);
+	// a trickle: the client connects after the accept loop's select has expired idle; it must still be served
+	for (int seq = 0; seq < 2; seq++) {
+		for (int ux = 0; ux < 2; ux++) addScn(sc, 1, 3, 0, seq, ux, false, B(2, 3), true);
+		addScn(sc, 2, 0, 3, seq, 2, false, 1, true); // one at once on the port, one later on the path
+	}
+	addScn(sc, 1, 3, 0, 0, 0, false, B(1, 2), true, BLOCKING);
+	// both endpoints bound with stop(true) racing the clients, and a late client on the endpoint not used before
+	for (int seq = 0; seq < 2; seq++) {
+		for (int m0 = 0; m0 < 3; m0++) for (int m1 = 0; m1 < 3; m1++) addScn(sc, 2, m0, m1, seq, 2, false, B((m0 && m1) || (!seq && (m0 || m1)) ? 0 : 1, 1));
+		addScn(sc, 1, 0, 0, seq, 2, true, B(1, 2));
+	}
+	// one accept() fails (ECONNABORTED): the loop must go on, the handler count must not leak, the other connection is served
+	for (int seq = 0; seq < 2; seq++) {
+		for (int ux = 0; ux < 2; ux++) addScn(sc, 1, 0, 0, seq, ux, false, B(1, 2), false, NONBLOCKING, 1);
+		for (int af = 1; af <= 2; af++) addScn(sc, 2, 0, 0, seq, 0, false, 1, false, NONBLOCKING, af);
+		addScn(sc, 2, 0, 0, seq, 2, false, B(seq ? 1 : 0, 1), true, NONBLOCKING, 1);
+	}
+	#undef B
+	if (getenv("C14_ONLY")) { std::vector<Scn> q; for (size_t i = 0; i < sc.size(); i++) if (scnName(sc[i]).find(getenv("C14_ONLY")) != std::string::npos) q.push_back(sc[i]); sc.swap(q); }
 	if (vf::opt.replay) {
 		std::string k = vf::opt.kase, sched; size_t bar = k.find('|'); if (bar != std::string::npos) { sched = k.substr(bar + 1); k = k.substr(0, bar); }
-		for (size_t i = 0; i < sc.size(); i++) if (scnName(sc[i]) == k) { vf::parallel(1, [&](uint64_t) { runScn(sc[i], &sched); }); break; }
+		Scn s;
+		if (!parseScn(k, s)) { fprintf(stderr, "cannot parse case %s\n", k.c_str()); return 2; }
+		vf::parallel(1, [&](uint64_t) { Run r; r.sc = s; r.kase = scnName(s); g_case = r.kase; vf::cur(r.kase); vsched::Result x = vsched::run_once(vsched::parse_schedule(sched), [&]() { r.body(); }, 50000); r.after(x); });
 		return vf::finish();
 	}
-	vf::parallel(sc.size(), [&](uint64_t i) { if (vf::deadline_passed()) { vf::cap_hit("deadline"); return; } runScn(sc[i], 0); });
+	// phase 1: the first execution of every scenario; its alternatives (one per schedule point and enabled thread, within the bound) become the work items of phase 2
+	std::string dir = vf::scratch_dir();
+	vf::parallel(sc.size(), [&](uint64_t i) {
+		std::vector<Prefix> alts; exploreBelow(sc[i], Prefix(), true, &alts);
+		FILE* f = fopen((dir + fmt("/c14root.%d", (int)i)).c_str(), "wb");
+		if (f) { for (size_t k = 0; k < alts.size(); k++) { uint32_t n = (uint32_t)alts[k].size(); fwrite(&n, 4, 1, f); fwrite(alts[k].data(), 1, n, f); } fclose(f); }
+		vf::add(C_JOBS);
+	});
+	struct Item { int scn; Prefix prefix; };
+	std::vector<Item> items;
+	for (size_t i = 0; i < sc.size(); i++) {
+		FILE* f = fopen((dir + fmt("/c14root.%d", (int)i)).c_str(), "rb"); if (!f) continue; // its first execution ended the worker: reported there
+		uint32_t n; while (fread(&n, 4, 1, f) == 1 && n < 60000) { Item it; it.scn = (int)i; it.prefix.resize(n); if (n && fread(it.prefix.data(), 1, n, f) != n) break; items.push_back(it); }
+		fclose(f); remove((dir + fmt("/c14root.%d", (int)i)).c_str());
+	}
+	// alternatives that branch off early have the largest subtrees: start them first
+	std::stable_sort(items.begin(), items.end(), [](const Item& a, const Item& b) { return a.prefix.size() < b.prefix.size(); });
+	vf::parallel(items.size(), [&](uint64_t k) { if (vf::deadline_passed()) { vf::cap_hit("deadline"); return; } exploreBelow(sc[items[k].scn], items[k].prefix, false, 0); vf::add(C_SUBJOBS); });
 	vf::setinfo("scenarios", fmt("%d", (int)sc.size()));
-	vf::sample("srv.n1.m00.seq0.ux0.late1: start(true); client connects, sends '0', reads echo; stop(true); late client; delete server - all schedules with <= 1 preemption");
-	vf::sample("srv.n2.m12.seq1.ux1: sequential server on a Unix path, one client closes before sending, one after sending");
+	vf::sample("srv.n1.m00.seq0.ux0.late1.b2: start(true); client connects, sends '0', reads echo; stop(true); late client; delete server - all schedules with <= 2 deviations");
+	vf::sample("srv.n2.m12.seq1.ux1.late0.b1: sequential server on a Unix path, one client closes before sending, one after sending");
+	vf::sample("srv.n1.m30.seq0.ux0.late0.b1.join.blk: start() blocking in a caller's thread; the client connects 2.5 s later, after an idle select timeout; stop(true) from the main thread; server destroyed before that thread is joined");
 	return vf::finish();
 }
